@@ -1,3 +1,4 @@
+import FluentProofs.ConstTieSyntax
 import FluentProofs.ParserLinesWF
 /-!
 # C05 — the runtime parser agrees with the full parser apart from comments
